@@ -61,7 +61,8 @@ impl<State: PyStateConvert + state::State> GoalSampleableRegion<State> for PyGoa
                 .and_then(|res| res.extract::<State::Wrapper>(py))
                 .map(State::from_py_wrapper)
                 .map_err(|e| {
-                    e.print(py);
+                    // (not `print`: that hands SystemExit to the interpreter, which exits the process)
+                    e.display(py);
                     StateSamplingError::GoalRegionUnsatisfiable
                 })
         })
